@@ -42,6 +42,13 @@ Theorem C17_no_descent_ancestors : forall root p t, dir_at root p t -> forall q 
   exists ch, dir_at root q (Dir true ch).
 Proof. exact dir_at_prefix. Qed.
 
+(* Read with unique sibling names (as in a real directory): whatever is found at a non-empty prefix
+   of the path of a job - or of the directory containing a result - is a real directory that the
+   filters keep: not excluded, not a link. *)
+Theorem C17_no_descent_unique : forall root p t, unique_names root -> dir_at root p t ->
+  forall q r c, p = q ++ r -> q <> [] -> at_path root q c -> fst c = false /\ is_dir (snd c) = true.
+Proof. exact no_descent_unique. Qed.
+
 (* Always finishes: the measure [mu] decreases on every step from every state, so every execution
    is finite under every scheduler (no fairness assumption) ... *)
 Theorem C17_step_decreases : forall N C s s', step N C s s' -> mu N s' < mu N s.
